@@ -10,7 +10,7 @@ RepoPolicy turns every call site into a cfg.Target:
 import ast
 
 from .cfg import Policy, Target
-from .loader import norm, AnalysisError
+from .loader import norm, AnalysisError, walk_own
 
 # name -> ('nonraising' | 'ordinary' | atom-name-list)
 BUILTIN_FUNCS = {
@@ -350,6 +350,36 @@ class RepoPolicy(Policy):
                     return self.user_target(users[0][1], users[0][2], None, call, frame)
                 if vals and all(v[0] == 'none' for v in vals):
                     return Target('opaque', 'dead:None-callee ' + norm(f), role='dead')
+                # a local bound only to method references (`get = r.get_data_direct` / `get = r.get_data`): either of them is called
+                all_binds = [n for n in walk_own(frame.func.node) if isinstance(n, ast.Assign) and len(n.targets) == 1 and
+                             isinstance(n.targets[0], ast.Name) and n.targets[0].id == name]
+                # bindings under an `if` whose test is decided by the constant arguments of this (inlined) call are dropped
+                feasible = []
+                for b in all_binds:
+                    ok_b = True
+                    for i_ in walk_own(frame.func.node):
+                        if isinstance(i_, ast.If):
+                            in_body = any(x is b for s_ in i_.body for x in ast.walk(s_))
+                            in_else = any(x is b for s_ in i_.orelse for x in ast.walk(s_))
+                            if in_body or in_else:
+                                tv_ = self.static_truth(i_.test, frame)
+                                if tv_ is not None and tv_ != in_body:
+                                    ok_b = False
+                    if ok_b:
+                        feasible.append(b)
+                binds = [b.value for b in feasible]
+                others = [n for n in walk_own(frame.func.node) if isinstance(n, ast.Name) and n.id == name and isinstance(n.ctx, ast.Store)]
+
+                def leaves(e):
+                    return leaves(e.body) + leaves(e.orelse) if isinstance(e, ast.IfExp) else [e]
+                arms = [x for b in binds for x in leaves(b)]
+                if arms and len(others) == len(all_binds) and all(isinstance(a, ast.Attribute) for a in arms) and name not in frame.func.all_param_names:
+                    ts = [self.call_target(ast.copy_location(ast.Call(func=a, args=call.args, keywords=call.keywords), call), frame) for a in arms]
+                    if len(ts) == 1:
+                        return ts[0]
+                    if all(t.kind == 'opaque' for t in ts):
+                        return Target('opaque', 'either(%s)' % ' | '.join(t.label for t in ts), raises=frozenset().union(*[t.raises for t in ts]),
+                                      role=ts[0].role)
                 return Target('opaque', 'local-callable:' + norm(f), raises=self.excm.ordinary, role='dynamic')
             if name in mod.functions:
                 return self.func_target(mod.functions[name], call, frame, for_with=for_with)
